@@ -222,10 +222,23 @@ fn reader_case<const N: usize>(rng: &mut Rng, rep: &mut Report, cfg: &GenCfg) {
     rep.eval();
     rep.count(&format!("reader.namespaces.{N}"));
     let text = emit(&m, rng);
+    // line endings: every eighth text has CR LF throughout, every eighth a mixture (a Windows checkout, an editor converting the lines
+    // it touches). Whether the reader accepts CR LF is its decision (a refusal is counted, not judged); if it succeeds, the set read
+    // must be the set emitted - not one whose last cells carry a CR.
+    let endings = match rng.below(8) { 0 => "crlf", 1 => "mixed", _ => "lf" };
+    let text = if endings == "lf" || text.contains('\r') { text } else {
+        let mut out = String::with_capacity(text.len() + 64);
+        for l in text.split_inclusive('\n') { if l.ends_with('\n') && (endings == "crlf" || rng.bool()) { out.push_str(&l[..l.len() - 1]); out.push_str("\r\n"); } else { out.push_str(l); } }
+        rep.count(&format!("reader.line_endings.{endings}"));
+        out
+    };
+    let foreign = text.contains("\r\n");
     match guard(|| tiny_v2::read::<N, ()>(text.as_bytes())) {
         Err(p) => rep.violation(format!("C03 panic {}", p.site()), json!({"call": "read", "panic": p.message, "text": text})),
+        Ok(Err(_)) if foreign => rep.count("reader.line_endings.refused (not judged)"),
         Ok(Err(e)) => rep.violation("C03 read: rejects a well-formed Tiny v2 text (harness emitter, arbitrary sibling order)", json!({"error": format!("{e:#}"), "text": text})),
         Ok(Ok(r)) => {
+            if foreign { rep.count("reader.line_endings.read"); }
             maps::watch(rep, "C03", "read", &r, || json!({"text": text}));
             let back = maps::from_quill(&r);
             for (k, w) in cmp::kinds(&cmp::diff_maps(&m, &back)) { rep.violation(format!("C03 read (harness-emitted text): {k}"), json!({"where": w, "text": text, "read_back": back.render()})); }
@@ -321,15 +334,17 @@ fn main() {
     let loose_cfg = GenCfg { unique_per_namespace: false, absent: (1, 2), ..main_cfg.clone() };
     let hostile_cfg = GenCfg { comments: CommentClass::Hostile, comment_chance: (1, 2), max_classes: 3, big: (0, 1), ..GenCfg::default() };
     let n = ctx.tier.pick(150_000, 1_200_000);
-    run_cases(&ctx, &replay, &mut rep, "main", n, |rng, rep, i| {
-        let cfg = if i % 5 == 4 { &loose_cfg } else { &main_cfg };
-        match i % 3 { 0 => case::<2>(rng, rep, cfg, false), 1 => case::<3>(rng, rep, cfg, false), _ => case::<4>(rng, rep, cfg, false) }
+    // the two small workloads first: every coverage obligation that only they can meet is met within the first seconds, and the
+    // wall-clock budget (which only ever ends generation early) can then cut the bulk workload without starving anything
+    run_cases(&ctx, &replay, &mut rep, "hostile", n / 10, |rng, rep, i| {
+        match i % 3 { 0 => case::<2>(rng, rep, &hostile_cfg, true), 1 => case::<3>(rng, rep, &hostile_cfg, true), _ => case::<4>(rng, rep, &hostile_cfg, true) }
     });
     run_cases(&ctx, &replay, &mut rep, "reader", n / 4, |rng, rep, i| {
         match i % 3 { 0 => reader_case::<2>(rng, rep, &main_cfg), 1 => reader_case::<3>(rng, rep, &main_cfg), _ => reader_case::<4>(rng, rep, &main_cfg) }
     });
-    run_cases(&ctx, &replay, &mut rep, "hostile", n / 10, |rng, rep, i| {
-        match i % 3 { 0 => case::<2>(rng, rep, &hostile_cfg, true), 1 => case::<3>(rng, rep, &hostile_cfg, true), _ => case::<4>(rng, rep, &hostile_cfg, true) }
+    run_cases(&ctx, &replay, &mut rep, "main", n, |rng, rep, i| {
+        let cfg = if i % 5 == 4 { &loose_cfg } else { &main_cfg };
+        match i % 3 { 0 => case::<2>(rng, rep, cfg, false), 1 => case::<3>(rng, rep, cfg, false), _ => case::<4>(rng, rep, cfg, false) }
     });
     let mut meta = Meta::new("exploration",
         "sets drawn by maps::gen (2-4 namespaces, partial rows, nested/unicode/placeholder names, rich comments); each written from 4 insertion orders, read back, written again; \
@@ -351,6 +366,7 @@ fn main() {
             meta.oblige(format!("every public entry point of the format is driven: {k} (>= 100)"), rep.get(k) >= 100);
         }
     }
+    if ctx.replay.is_none() { meta.oblige("harness-emitted texts with CR LF line endings throughout (>= 100) and mixed (>= 100), the reader's treatment observed", rep.get("reader.line_endings.crlf") >= 100 && rep.get("reader.line_endings.mixed") >= 100 && rep.get("reader.line_endings.read") + rep.get("reader.line_endings.refused (not judged)") > 0); }
     if ctx.replay.is_none() { meta.oblige("sets with blank-only / blank-containing non-source names", rep.get("sets.with_blank_names") >= 50); }
     if ctx.replay.is_none() {
         if ctx.tier == Tier::Thorough {
